@@ -17,6 +17,7 @@ import PyomaVerif.Ops.C06
 import PyomaVerif.Ops.C07
 import PyomaVerif.Ops.C04
 import PyomaVerif.Ops.C13
+import PyomaVerif.Ops.C13M
 import PyomaVerif.Ops.C05
 import PyomaVerif.Ops.C07All
 import PyomaVerif.Ops.C09Run
@@ -35,6 +36,7 @@ def allOps : List (String × (Json → Except String Json)) :=
   ++ PV.Ops.C17Table.ops
   ++ PV.Ops.C08.ops
   ++ PV.Ops.MsGather.ops
+  ++ PV.Ops.C13M.ops
 
 def handle (line : String) : String :=
   match Json.parse line with
